@@ -20,7 +20,7 @@ func init() {
 	for _, w := range c13Workloads {
 		floor = append(floor, "workload."+w)
 	}
-	floor = append(floor, "shared.where", "shared.subquery", "shared.exists", "shared.in-subquery", "shared.order", "shared.group", "shared.distinct", "shared.cte-wrapped", "par.join", "par.join-fail", "par.async", "par.spinasync", "par.await-async", "par.async-deep", "par.join-like", "cached.open-range")
+	floor = append(floor, "shared.where", "shared.subquery", "shared.exists", "shared.in-subquery", "shared.order", "shared.group", "shared.distinct", "shared.marker-between", "shared.cte-wrapped", "par.join", "par.join-fail", "par.async", "par.spinasync", "par.await-async", "par.async-deep", "par.join-like", "cached.open-range", "reader.fn-spelling")
 	fw.Register(&fw.Prop{
 		ID:    "C13",
 		Title: "Concurrent queries are free of data races, crashes and cross-talk",
@@ -99,6 +99,9 @@ var c13Shared = []struct{ feat, sql string }{
 	{"shared.group", "SELECT s1, COUNT(*) AS c, SUM(n1) AS s, * FROM t1 GROUP BY s1"},
 	{"shared.distinct", "SELECT DISTINCT s1, b1 FROM t1"},
 	{"shared.distinct", "SELECT DISTINCT * FROM t1"},
+	{"shared.marker-between", "SELECT rid, (SELECT e FROM arr WHERE e BETWEEN `<-n2` AND `<-n1`) AS s FROM t1"},
+	{"shared.marker-between", "SELECT rid FROM t1 WHERE EXISTS (SELECT e FROM arr WHERE e NOT BETWEEN `<-.n1` AND `<-.n2`)"},
+	{"shared.marker-between", "SELECT rid, (SELECT un1 FROM `<-u1` WHERE un1 BETWEEN `<-n2` AND `<-n1` OR un1 IN (`<-n1`, `<-n2`)) AS s FROM t1"},
 	{"shared.cte-wrapped", "WITH c1 AS (SELECT rid, n1 FROM `root.t1` WHERE n1 >= 0) SELECT * FROM c1 WHERE rid >= 0"},
 	{"shared.cte-wrapped", "WITH c1 AS (SELECT rid, n1 FROM `root.t1`), c2 AS (SELECT rid FROM c1 WHERE n1 > 0) SELECT * FROM c2"},
 }
@@ -248,6 +251,10 @@ func c13Run(c *fw.Case) {
 			sharedDoc = nil
 		}
 	case "shared-doc.execreader":
+		// the "alone" results are computed after the concurrent run: whatever a
+		// first evaluation of a text does to process-wide state must happen
+		// while the other goroutines are running
+		postBaseline = true
 		doc := c09Doc(c)
 		sharedDoc = doc
 		for g := 0; g < G; g++ {
@@ -256,6 +263,19 @@ func c13Run(c *fw.Case) {
 				sel := c09Selector(c, doc, "", &fs).Render()
 				if c.Chance(0.3) {
 					sel += fmt.Sprintf("::nokey_%d_%d_%d", c.Idx, g, i) // a fresh selector text: cache miss
+				}
+				if c.Chance(0.25) {
+					// top-level functions in spellings the process has not seen
+					// (whether a spelling is accepted is not the point: it is the same alone and concurrently)
+					fn := gen.Pick(c.R, []string{"Mix", "MIX", "Distinct", "DISTINCT", "dIsTiNcT", "mIx", "Vsel", "VSEL"})
+					spell := []byte(fn)
+					for k := range spell {
+						if (c.Idx+g+i+k)%3 == 0 {
+							spell[k] ^= 0x20
+						}
+					}
+					sel = string(spell) + "=>" + gen.Pick(c.R, []string{"users", "data", "rag", "items"})
+					feats = append(feats, "reader.fn-spelling")
 				}
 				jobs[g] = append(jobs[g], &c13Job{doc: doc, sql: sel, reader: true})
 			}
